@@ -45,7 +45,7 @@ func expandFacts(p *Prog, f *ssa.Function, depth int, onStack map[*ssa.Function]
 			continue
 		}
 		h := call.Call.StaticCallee()
-		if onStack[h] {
+		if onStack[h] || p.opaque[h] {
 			continue
 		}
 		e := env{}
@@ -248,7 +248,7 @@ func outcomeAlts(p *Prog, h *ssa.Function, kind string, holds bool, e env, depth
 				a := Atom{Kind: "nil", X: v}
 				fa := factAtom{withEnv(a), holds}
 				out := [][]factAtom{append(append([]factAtom{}, base...), fa)}
-				if h2 := cl.Call.StaticCallee(); h2 != nil && p.InModule(h2) && h2.Blocks != nil && depth > 0 && !onStack[h2] {
+				if h2 := cl.Call.StaticCallee(); h2 != nil && p.InModule(h2) && h2.Blocks != nil && depth > 0 && !onStack[h2] && !p.opaque[h2] {
 					e2 := env{}
 					for k2, v2 := range e {
 						e2[k2] = v2
@@ -274,7 +274,12 @@ func outcomeAlts(p *Prog, h *ssa.Function, kind string, holds bool, e env, depth
 			if a.Kind == "bool" {
 				if _, isParam := a.X.(*ssa.Parameter); !isParam {
 					if cl, _ := callOf(a.X); cl == nil {
-						if _, isField := a.X.(*ssa.UnOp); !isField {
+						_, isField := a.X.(*ssa.UnOp)
+						isCommaOk := false
+						if ex, ok := a.X.(*ssa.Extract); ok {
+							_, isCommaOk = ex.Tuple.(*ssa.Lookup)
+						}
+						if !isField && !isCommaOk {
 							return nil
 						}
 					}
@@ -283,7 +288,7 @@ func outcomeAlts(p *Prog, h *ssa.Function, kind string, holds bool, e env, depth
 			fa := factAtom{withEnv(a), holds == pos}
 			out := [][]factAtom{append(append([]factAtom{}, base...), fa)}
 			// a returned helper call: its own outcome alternatives
-			if cl, k := helperOutcome(p, a); cl != nil && depth > 0 && !onStack[cl.Call.StaticCallee()] {
+			if cl, k := helperOutcome(p, a); cl != nil && depth > 0 && !onStack[cl.Call.StaticCallee()] && !p.opaque[cl.Call.StaticCallee()] {
 				h2 := cl.Call.StaticCallee()
 				e2 := env{}
 				for k2, v2 := range e {
